@@ -26,13 +26,15 @@ ALLOC = "saveload::marker::MarkerAllocator::allocate"
 
 def run(ctx):
     for r, t in [("C15-R1", "mark() allocates only when the entity has no marker"), ("C15-R2", "retrieve_entity creates only when lookup or marker fetch failed"),
-                 ("C15-R3", "deserialize_entity inserts present and removes absent components, position by position")]:
+                 ("C15-R3", "deserialize_entity inserts present and removes absent components, position by position"),
+                 ("C15-R4", "allocate() (re)points the id at the entity and moves the counter past an explicit id")]:
         ctx.rule(r, t)
     for cfg in (["F"] if ctx.tier == "quick" else ["F", "FN"]):
         facts = ctx.facts(cfg)
         r1(ctx, facts)
         r2(ctx, facts)
         r3(ctx, facts)
+        r4(ctx, facts)
 
 
 def r1(ctx, facts):
@@ -168,3 +170,74 @@ def r3(ctx, facts):
             ok = False
             why = why or "positions handled %s of %d" % (sorted(seen_pos), len(ms))
         ctx.ob("C15-R3", "%s::deserialize_entity insert/remove per position" % b.self_ty, ok, b.loc(), why)
+
+
+CMP_IMPLIES = {  # (op, a_is_id) -> relation of (counter ? id) on the TRUE edge / FALSE edge
+    ("Ge", True): ("N<=I", "N>I"), ("Gt", True): ("N<I", "N>=I"), ("Le", True): ("N>=I", "N<I"), ("Lt", True): ("N>I", "N<=I"),
+    ("Ge", False): ("N>=I", "N<I"), ("Gt", False): ("N>I", "N<=I"), ("Le", False): ("N<=I", "N>I"), ("Lt", False): ("N<I", "N>=I"),
+    ("Eq", True): ("N==I", "N!=I"), ("Eq", False): ("N==I", "N!=I"), ("Ne", True): ("N!=I", "N==I"), ("Ne", False): ("N!=I", "N==I"),
+}
+
+
+def r4(ctx, facts):
+    impls = [b for b in facts.bodies if b.trait_item == ALLOC and b.impl]
+    ctx.floor("C15-R4", "MarkerAllocator::allocate impls", len(impls), 1)
+    for b in impls:
+        ins = [bb for bb, t in b.calls() if t["callee"].get("name") == "insert" and "HashMap" in (t["callee"].get("path", "") + (t["callee"].get("self_ty") or ""))
+               and b.arg_origin(bb, 0)[:2] == ("param", 1)]
+        ok, wit = b.must_pass(0, ins) if ins else (False, None)
+        ent = all(b.arg_origin(bb, 2) == ("param", 2, ()) for bb in ins)
+        ret = b.origin({"local": 0, "proj": []})
+        idok = all(any(d[0] == "call" and b.term(d[1])["callee"].get("name") == "id" for d in b.deps(b.arg_origin(bb, 1))) or
+                   b.roots(b.arg_origin(bb, 1)) & b.roots(ret) for bb in ins)
+        ctx.ob("C15-R4", "%s overwrites mapping[id] = entity on every path" % b.path, ok and ent and idok, b.loc(),
+               "" if ok and ent and idok else "allocate() does not insert (overwrite) the returned marker's id -> its entity on every path (insert sites: %d, every path: %s, "
+               "entity parameter: %s): a stale mapping to a dead entity survives and later loads create duplicates" % (len(ins), ok, ent))
+        # counter past explicit id
+        idp = [i for i in range(2, b.argc + 1) if b.ltype[i].startswith("std::option::Option<")]
+        cnt = sorted({b.origin(dst)[2][0] for sbb, si, dst, rv, line in b.stores() if b.origin(dst)[:2] == ("param", 1) and len(b.origin(dst)[2]) == 1})
+        if not idp or len(cnt) != 1:
+            continue
+        I = ("param", idp[0], ("as Some", "0"))
+        N = ("param", 1, (cnt[0],))
+        ves = b.variant_edges(lambda so: so == ("param", idp[0], ()))
+        some = [ve["edges"]["Some"] for ve in ves if "Some" in ve["edges"]]
+        if not some:
+            ctx.ob("C15-R4", "%s explicit-id path" % b.path, "undetermined", b.loc(), "no match on the explicit id")
+            continue
+        verdicts = []
+
+        def walk(bb, holds, seen):
+            if bb in seen or len(verdicts) > 64:
+                return
+            seen = seen | {bb}
+            for sbb, si, dst, rv, line in b.stores():
+                if sbb == bb and b.origin(dst) == N:
+                    vo = b.operand_origin(rv["ops"][0]) if rv.get("k") == "use" else ("unknown",)
+                    deps = b.deps(vo)
+                    plus1 = vo[0] == "op" and vo[1].startswith("Add") and I in vo[2]
+                    mx = vo[0] == "call" and b.term(vo[1])["callee"].get("name") == "max" and any(d[0] == "op" and d[1].startswith("Add") and I in d[2] for d in deps)
+                    holds = True if (plus1 or mx) else "unknown"
+            t = b.term(bb)
+            if t["k"] == "return":
+                verdicts.append((holds, bb))
+                return
+            if t["k"] == "switch":
+                o = b.operand_origin(t["discr"])
+                if o[0] == "op" and o[1] in ("Ge", "Gt", "Le", "Lt", "Eq", "Ne") and set(o[2]) == {I, N}:
+                    rel_t, rel_f = CMP_IMPLIES[(o[1], o[2][0] == I)]
+                    tv = {v: x for v, x in t["targets"]}
+                    walk(t["otherwise"], True if rel_t == "N>I" else holds, seen)
+                    if 0 in tv:
+                        walk(tv[0], True if rel_f == "N>I" else holds, seen)
+                    return
+            for s_ in b.succs(bb):
+                walk(s_, holds, seen)
+        walk(some[0][1], False, frozenset())
+        bad = [v for v in verdicts if v[0] is False]
+        unk = [v for v in verdicts if v[0] == "unknown"]
+        res = False if bad else ("undetermined" if unk or not verdicts else True)
+        ctx.ob("C15-R4", "%s: counter ends above an explicitly given id" % b.path, res, b.loc(),
+               "" if res is True else ("on the explicit-id path the counter `%s` is not known to exceed the id at return (a comparison edge that only gives "
+                                       "counter >= id, or no update): the next freshly allocated marker can repeat a loaded id" % cnt[0] if bad else
+                                       "could not follow how the counter is updated on the explicit-id path"))
